@@ -63,11 +63,7 @@ Theorem C01_common_crs_multigeom :
     (~ mismatch_before crs_eqb (gtag first) (map gtag rest) ->
        common_crs crs_eqb (first :: rest) = Ok (gtag first) /\
        multigeom crs_eqb fmulti (first :: rest) = Ok (mkGeom (fmulti (map ggeom (first :: rest))) (gtag first))).
-Proof.
-  intros. destruct (common_crs_spec crs crs_eqb G first rest) as (A1 & A2).
-  destruct (multigeom_spec crs crs_eqb G fmulti first rest) as (B1 & B2).
-  split; intros H; split; auto.
-Qed.
+Proof. exact common_crs_multigeom_spec. Qed.
 Print Assumptions C01_common_crs_multigeom.
 
 Theorem C01_unary_union :
@@ -172,7 +168,7 @@ Print Assumptions C01_geobox_operators_mismatch.
 (** both error kinds are ValueErrors (CRSMismatchError subclasses ValueError: checked on
     the source by the static obligation of the check) *)
 Theorem C01_errors_are_value_errors : is_value_error ECrs = true /\ is_value_error EValue = true.
-Proof. split; reflexivity. Qed.
+Proof. exact errors_are_value_errors. Qed.
 Print Assumptions C01_errors_are_value_errors.
 
 (** when [crs_eqb] is symmetric (pyproj equality is; validated by the check on its tag set)
@@ -181,12 +177,7 @@ Theorem C01_gate_symmetric :
   forall (crs : Type) (crs_eqb : crs -> crs -> bool) (G R : Type) (f f' : G -> G -> G + R) (a b : geom crs G),
     (forall x y, crs_eqb x y = crs_eqb y x) ->
     is_ok (binop crs_eqb f a b) = is_ok (binop crs_eqb f' b a).
-Proof.
-  intros crs crs_eqb G R f f' a b Hs. rewrite !binop_spec.
-  assert (E : tag_ne crs_eqb (gtag a) (gtag b) = tag_ne crs_eqb (gtag b) (gtag a)).
-  { destruct (gtag a), (gtag b); simpl; try reflexivity. rewrite Hs. reflexivity. }
-  rewrite E. destruct (tag_ne crs_eqb (gtag b) (gtag a)); reflexivity.
-Qed.
+Proof. exact gate_symmetric. Qed.
 Print Assumptions C01_gate_symmetric.
 
 (** ** Non-vacuity: CRSs are integers compared up to parity ("same CRS, other spelling"):
